@@ -591,3 +591,20 @@ pub fn c16_broadcast_drain<S: Src>(s: &mut S) {
     vassert!(r2.is_ok() && rt2.ns == 0, "c16: broadcast() sends nothing when the backlog is empty");
     vcover!(rt.sent[0].dst == b && a.gen != b.gen, "one member served, the other spared");
 }
+
+/// Crafted suspicion timer: arbitrary identity (also newer than the record),
+/// incarnation and token in any connection state. No panic, Inv preserved.
+pub fn c06_timer_crafted_suspect<S: Src>(s: &mut S) {
+    let mut f = arb_foca(s, Shape::k(2));
+    let pre = snap(&f);
+    let member_id = Id::arb(s);
+    let incarnation = s.u16();
+    let token = s.u8();
+    let mut rt = LogRt::new();
+    let r = f.handle_timer(crate::Timer::ChangeSuspectToDown { member_id, incarnation, token }, &mut rt);
+    vassert!(r.is_ok(), "c06: a crafted suspicion timer is not an error");
+    vassert!(!rt.overflow, "c18: bounded effects for a crafted timer");
+    vassert!(inv_holds(&f), "c09: representation invariant preserved by a crafted timer");
+    vassert!(rt.ns <= 1, "c18: a suspicion timer sends at most one datagram");
+    vcover!(token == pre.token && pre.by_addr(member_id.addr).map(|r| member_id.gen > r.0.gen).unwrap_or(false), "timer naming a newer identity than the record");
+}
